@@ -224,6 +224,18 @@ func (dec *ttlvReader) value() []byte {
 	return dec.buf[8 : 8+dec.len()]
 }
 
+// assertFixed checks the type and tag like assertType, and that the length
+// field is exactly the width of the fixed-width type.
+func (dec *ttlvReader) assertFixed(ty Type, tag int, width int) error {
+	if err := dec.assertType(ty, tag); err != nil {
+		return err
+	}
+	if l := dec.len(); l != width {
+		return Errorf("Invalid length for tag %s of type %s. Got %d but expected %d", TagString(tag), ty, l, width)
+	}
+	return nil
+}
+
 func (dec *ttlvReader) assertType(ty Type, tag int) error {
 	if len(dec.buf) == 0 {
 		return ErrEOF
@@ -238,7 +250,7 @@ func (dec *ttlvReader) assertType(ty Type, tag int) error {
 }
 
 func (dec *ttlvReader) Integer(tag int) (int32, error) {
-	if err := dec.assertType(TypeInteger, tag); err != nil {
+	if err := dec.assertFixed(TypeInteger, tag, 4); err != nil {
 		return 0, err
 	}
 	//nolint:gosec // this cast is safe as we are parsing raw bytes.
@@ -247,7 +259,7 @@ func (dec *ttlvReader) Integer(tag int) (int32, error) {
 }
 
 func (dec *ttlvReader) LongInteger(tag int) (int64, error) {
-	if err := dec.assertType(TypeLongInteger, tag); err != nil {
+	if err := dec.assertFixed(TypeLongInteger, tag, 8); err != nil {
 		return 0, err
 	}
 	//nolint:gosec // this cast is safe as we are parsing raw bytes.
@@ -261,7 +273,7 @@ func (dec *ttlvReader) BigInteger(tag int) (*big.Int, error) {
 }
 
 func (dec *ttlvReader) Enum(realtag, tag int) (uint32, error) {
-	if err := dec.assertType(TypeEnumeration, tag); err != nil {
+	if err := dec.assertFixed(TypeEnumeration, tag, 4); err != nil {
 		return 0, err
 	}
 	v := binary.BigEndian.Uint32(dec.value())
@@ -269,7 +281,7 @@ func (dec *ttlvReader) Enum(realtag, tag int) (uint32, error) {
 }
 
 func (dec *ttlvReader) Bool(tag int) (bool, error) {
-	if err := dec.assertType(TypeBoolean, tag); err != nil {
+	if err := dec.assertFixed(TypeBoolean, tag, 8); err != nil {
 		return false, err
 	}
 	v := dec.value()[7] != 0
@@ -309,7 +321,7 @@ func (dec *ttlvReader) ByteString(tag int) ([]byte, error) {
 }
 
 func (dec *ttlvReader) DateTime(tag int) (time.Time, error) {
-	if err := dec.assertType(TypeDateTime, tag); err != nil {
+	if err := dec.assertFixed(TypeDateTime, tag, 8); err != nil {
 		return time.Time{}, err
 	}
 	//nolint:gosec // this cast is safe as we are parsing raw bytes.
@@ -318,7 +330,7 @@ func (dec *ttlvReader) DateTime(tag int) (time.Time, error) {
 }
 
 func (dec *ttlvReader) Interval(tag int) (time.Duration, error) {
-	if err := dec.assertType(TypeInterval, tag); err != nil {
+	if err := dec.assertFixed(TypeInterval, tag, 4); err != nil {
 		return 0, err
 	}
 	v := time.Duration(binary.BigEndian.Uint32(dec.value())) * time.Second
